@@ -186,6 +186,17 @@ int main(int argc, char **argv) {
 		ocase c = { "synthetic", magic, (long) l, fill, 0, 0, buf, l }; RUN(c);
 	}
 	vh_sig(vh_mix(6, 0));
+	/* 7. a fixed family of pseudo-random files (deterministic generator, not sampled at run time): random bodies with either magic,
+	 *    and valid seeds whose whole trailer (or whose index block) is overwritten with generator output */
+	for (int fam = 0; fam < 3; fam++) for (uint32_t id = 0; id < (vh_thorough ? 20000u : 3000u); id++) {
+		if (!only && !MINE()) continue;
+		uint32_t x = id * 2654435761u + 97 * fam + 1; size_t l;
+		#define NEXT() (x ^= x << 13, x ^= x >> 17, x ^= x << 5, x)
+		if (fam == 0) { l = 512 + NEXT() % 700; for (size_t i = 0; i < l; i++) buf[i] = (uint8_t) (NEXT() >> 9); ic_put32(buf + l - 4, (id & 1) ? IC_MAGIC_V1 : IC_MAGIC_V2); if (id & 2) for (int q = 0; q < 9; q++) if (NEXT() & 1) ic_put64(buf + l - 512 + 8 * q, NEXT() % (2 * l)); }
+		else { const uint8_t *sb = seed_b[id % NSEED]; l = seed_l[id % NSEED]; memcpy(buf, sb, l); uint64_t ioff = ic_le64(sb + l - 512); if (fam == 1) { for (size_t i = l - 512; i < l - 4; i++) if (NEXT() % 3 == 0) buf[i] = (uint8_t) (NEXT() >> 11); } else { for (size_t i = ioff; i < l - 512; i++) if (NEXT() % 4 == 0) buf[i] = (uint8_t) (NEXT() >> 11); } }
+		ocase c = { fam == 0 ? "prng-file" : fam == 1 ? "prng-trailer" : "prng-index", (int) id, fam, 0, 0, 0, buf, l }; RUN(c);
+	}
+	vh_sig(vh_mix(7, 0));
 	free(buf);
 	vh_count("returned_null", n_null); vh_count("returned_reader", n_reader); vh_count("stopped_on_assertion", n_assert); vh_count("states", n_null + n_reader + n_assert);
 	if (vh_shard == 0) { vh_sample("O:index-len-fit:2:5:0:1:0 = seed 2 (3 blocks, lz4), index length prefix set to (space before trailer)+5, verify_checksums on, mtbl_reader_init"); vh_sample("O:trunc:3:700:0:0:1"); }
